@@ -67,12 +67,37 @@ let rec split_at key = function
   | x :: r when x = key -> ([], r)
   | x :: r -> let (a, b) = split_at key r in (x :: a, b)
 
+(* frame <id> keepfp=<0|1> vararg=<0|1> nslots=<n> used=<r,r,...> :
+   prints what target_make_prolog_epilog must emit for that configuration *)
+let frame_line id rest =
+  let get k d = List.fold_left (fun acc t ->
+    match String.index_opt t '=' with
+    | Some i when String.sub t 0 i = k -> String.sub t (i + 1) (String.length t - i - 1)
+    | _ -> acc) d rest in
+  let ints s = if s = "" || s = "-" then [] else List.map int_of_string (String.split_on_char ',' s) in
+  let zi n = if n >= 0 then z_of_int n else (match z_of_int (- n) with Zpos p -> Zneg p | z -> z) in
+  let f0 = { used = List.map zi (ints (get "used" "")); keep_fp = get "keepfp" "0" = "1";
+            vararg = get "vararg" "0" = "1"; nslots = zi (int_of_string (get "nslots" "0")) } in
+  (* with sub=<observed>: the smallest slot count >= nslots whose frame has that size (or none) *)
+  let want = int_of_string (get "sub" "-1") in
+  let n0 = int_of_string (get "nslots" "0") in
+  let rec search k = if k > 64 then None else
+    let f = { f0 with nslots = zi (n0 + k) } in
+    if int_of_z (sub_sp f) = want then Some f else search (k + 1) in
+  let (f, found) = if want < 0 then (f0, 1) else (match search 0 with Some f -> (f, 1) | None -> (f0, 0)) in
+  let show l = String.concat "," (List.map (fun (r, d) -> Printf.sprintf "%d:%d" (int_of_z r) (int_of_z d)) l) in
+  let dash s = if s = "" then "-" else s in
+  Printf.printf "%s found=%d nslots=%d sub=%d block=%d saves=%s restores=%s regsave=%s slot0=%d slotld0=%d\n" id
+    found (int_of_z f.nslots) (int_of_z (sub_sp f)) (int_of_z (block_size f)) (dash (show (save_list f))) (dash (show (restore_list f)))
+    (dash (show (reg_save_stores f))) (int_of_z (slot_offset f false Z0)) (int_of_z (slot_offset f true Z0))
+
 let () =
   try
     while true do
       let line = input_line stdin in
       match words line with
-      | id :: _va :: "args" :: rest ->
+      | "frame" :: id :: rest -> frame_line id rest
+      | id :: va :: "args" :: rest ->
         let (atoks, rest) = split_at "res" rest in
         let (rtoks, rets) = split_at "ret" rest in
         let parsed = List.map (fun t ->
@@ -94,7 +119,7 @@ let () =
         (* locations without values (when no values were given) *)
         if img = [] then List.iter (fun ls -> List.iter (fun l -> Buffer.add_string b (" " ^ show_loc l ^ "=-/0")) ls) locs;
         let agree f = if f args = (locs, st) then "1" else "0" in
-        let agree_locs f = if fst (f args) = locs && (C06x.snd (f args)).so = st.so then "1" else "0" in
+        let agree_locs f = if fst (f args) = locs && (Stdlib.snd (f args)).so = st.so then "1" else "0" in
         Buffer.add_string b (Printf.sprintf " stack=%d nsse=%d alhead=%d al=%d ffsub=%d mcsub=%d agree=%s%s%s%s%s%s"
           (int_of_z (stack_area args)) (int_of_z st.nx) (int_of_z (mc_al_head args)) (int_of_z (mc_al args))
           (int_of_z (ff_sub_rsp args)) (int_of_z (mc_sub_rsp args))
@@ -107,6 +132,26 @@ let () =
          | None -> Buffer.add_string b " illegal"
          | Some l -> List.iter (fun r -> Buffer.add_string b (" " ^ show_rloc r)) l);
         Buffer.add_string b (" mcres=" ^ (if mc_results rs = rl then "1" else "0") ^ " ffres=" ^ (if ff_results rs = rl then "1" else "0"));
+        (* C06: the va_list machinery on this signature *)
+        (if String.length va > 1 && va.[0] = 'v' then begin
+           let nfixed = int_of_string (String.sub va 1 (String.length va - 1)) in
+           let rec take n l = if n <= 0 then [] else (match l with [] -> [] | x :: r -> x :: take (n - 1) r) in
+           let rec drop n l = if n <= 0 then l else (match l with [] -> [] | _ :: r -> drop (n - 1) r) in
+           let named = take nfixed args and tail = drop nfixed args in
+           let want = drop nfixed locs in
+           let vs = gen_va_start named in
+           let vh = gen_va_start_head named in
+           let (dec, vi) = interp_decode true named in
+           let ok x = if x then "1" else "0" in
+           Buffer.add_string b (Printf.sprintf " vastart=%d,%d,%d vastarthead=%d,%d,%d"
+             (int_of_z vs.gp_offset) (int_of_z vs.fp_offset) (int_of_z vs.ov)
+             (int_of_z vh.gp_offset) (int_of_z vh.fp_offset) (int_of_z vh.ov));
+           Buffer.add_string b (" vagree=" ^ ok (Stdlib.fst (va_read_seq true true vs tail) = want)
+             ^ ok (Stdlib.fst (va_read_seq true true vi tail) = want)
+             ^ ok (dec = take nfixed locs)
+             ^ ok (Stdlib.fst (va_read_seq false false vh tail) = want)
+             ^ ok (Stdlib.fst (interp_decode false named) = take nfixed locs))
+         end);
         Buffer.add_string b " rv";
         (match rl, rets with
          | Some l, [rax; rdx; _; _] ->
